@@ -52,6 +52,10 @@ func determine(r klog.Record, b txt.Block) *style {
 		})
 	}
 	for _, l := range b.Lines() {
+		if l.IsBlank() {
+			// Whitespace-only lines don’t say anything about the indentation style.
+			continue
+		}
 		if l.Indentation() != "" {
 			s.indentation.Set(l.Indentation())
 			break
